@@ -12,7 +12,9 @@ import (
 	"sort"
 	"strings"
 	"sync"
+	"sync/atomic"
 	"testing"
+	"time"
 
 	"github.com/go-kid/ioc/app"
 	"github.com/go-kid/ioc/syslog"
@@ -268,14 +270,48 @@ func RunAppPre(pre func(a *app.App), ops ...app.SettingOption) (out Outcome) {
 	if pre != nil {
 		pre(a)
 	}
-	defer func() {
-		if r := recover(); r != nil {
-			out.Panic = r
-		}
+	// Run is executed on a goroutine of its own so that a start-up that never returns (a lock that is never
+	// released, a wait that nobody ends) is reported instead of blocking the whole check until its deadline.
+	// A start takes milliseconds; StartLimit is far beyond anything load can explain.
+	type res struct {
+		err error
+		pan any
+	}
+	if hungBefore.Load() {
+		// an earlier start of this process never returned; its goroutines may hold locks of process-wide state
+		out.Panic = Hang{"an earlier App.Run of this process is still blocked"}
+		return
+	}
+	done := make(chan res, 1)
+	go func() {
+		var r res
+		defer func() {
+			if p := recover(); p != nil {
+				r.pan = p
+			}
+			done <- r
+		}()
+		r.err = a.Run(ops...)
 	}()
-	out.Err = a.Run(ops...)
+	select {
+	case r := <-done:
+		out.Err, out.Panic = r.err, r.pan
+	case <-time.After(StartLimit):
+		hungBefore.Store(true)
+		out.Panic = Hang{fmt.Sprintf("App.Run did not return within %v", StartLimit)}
+	}
 	return
 }
+
+var hungBefore atomic.Bool
+
+// StartLimit bounds one App.Run (see RunAppPre).
+const StartLimit = 60 * time.Second
+
+// Hang is what Outcome.Panic holds when App.Run did not return.
+type Hang struct{ What string }
+
+func (h Hang) String() string { return "HANG: " + h.What }
 
 // Protect runs f and returns a recovered panic value (nil when none).
 func Protect(f func()) (p any) {
